@@ -772,7 +772,6 @@ Qed.
 
 (* an origin whose answers come from the handler says 200 only for a request during which it
    handed the blob to the remote cluster and the remote cluster accepted it *)
-Definition served (hs : list hstate) : list resp := map (fun h => RCode (handler h)) hs.
 Lemma served_200 hs n :
   nth_error (served hs) n = Some (RCode 200) -> exists h, nth_error hs n = Some h /\ uploaded h = true.
 Proof.
